@@ -163,6 +163,112 @@ func binaryWrites(fn *ssa.Function) []*ssa.Call {
 	return out
 }
 
+// footerItem: one value written by the footer writer.
+type footerItem struct {
+	call *ssa.Call
+	data ssa.Value
+}
+
+// unrollArrayWrite: `for _, v := range [N]T{a0..aN-1} { binary.Write(w, o, v) }`
+// is the sequence of writes of a0..aN-1, provided the array is a local whose
+// elements are each stored once at a constant index before the loop, the loop
+// runs over all of it from index 0, and is left early only towards a failure
+// return. Returns nil when `call` is not of that shape.
+func unrollArrayWrite(fn *ssa.Function, call *ssa.Call) []footerItem {
+	data := call.Call.Args[2]
+	var arr *ssa.Alloc
+	var idx ssa.Value
+	switch x := data.(type) {
+	case *ssa.Index: // range over a copy of the array value
+		if u, ok := x.X.(*ssa.UnOp); ok && u.Op == token.MUL {
+			arr, _ = u.X.(*ssa.Alloc)
+		}
+		idx = x.Index
+	case *ssa.UnOp: // *(&arr[i])
+		if ia, ok := x.X.(*ssa.IndexAddr); ok && x.Op == token.MUL {
+			arr, _ = ia.X.(*ssa.Alloc)
+			idx = ia.Index
+		}
+	}
+	if arr == nil || idx == nil {
+		return nil
+	}
+	at, ok := derefType(arr.Type()).Underlying().(*types.Array)
+	if !ok {
+		return nil
+	}
+	var loop *natLoop
+	for _, l := range naturalLoops(fn) {
+		if l.blocks[call.Block()] {
+			loop = l
+		}
+	}
+	if loop == nil {
+		return nil
+	}
+	if k, ok := loop.startIndex(); !ok || k != 0 {
+		return nil
+	}
+	// bound: index < N
+	iff, ok := loop.header.Instrs[len(loop.header.Instrs)-1].(*ssa.If)
+	if !ok {
+		return nil
+	}
+	bo, ok := iff.Cond.(*ssa.BinOp)
+	if !ok || bo.Op != token.LSS || bo.X != idx {
+		return nil
+	}
+	if n, ok := constInt64(bo.Y); !ok || n != at.Len() {
+		return nil
+	}
+	// early exits fail
+	for blk := range loop.blocks {
+		for _, sc := range blk.Succs {
+			if loop.blocks[sc] || (blk == loop.header && sc == loop.header.Succs[1]) {
+				continue
+			}
+			if !leadsToFailureReturn(sc, loop, 0, map[*ssa.BasicBlock]bool{}) {
+				return nil
+			}
+		}
+	}
+	// elements: one constant-index store each, before the loop
+	elems := make([]ssa.Value, at.Len())
+	for _, r := range *arr.Referrers() {
+		switch x := r.(type) {
+		case *ssa.IndexAddr:
+			k, isK := constInt64(x.Index)
+			if !isK {
+				if x.Index == idx {
+					continue // the loop's own read
+				}
+				return nil
+			}
+			for _, r2 := range *x.Referrers() {
+				st, ok := r2.(*ssa.Store)
+				if !ok || st.Addr != ssa.Value(x) {
+					return nil
+				}
+				if k < 0 || k >= at.Len() || elems[k] != nil || loop.blocks[st.Block()] || !st.Block().Dominates(loop.header) {
+					return nil
+				}
+				elems[k] = st.Val
+			}
+		case *ssa.UnOp, *ssa.DebugRef:
+		default:
+			return nil
+		}
+	}
+	var out []footerItem
+	for _, e := range elems {
+		if e == nil {
+			return nil
+		}
+		out = append(out, footerItem{call, e})
+	}
+	return out
+}
+
 func r14Writer(c *RuleCtx) {
 	fn := c.fn("persistFooter")
 	if fn == nil {
@@ -187,25 +293,78 @@ func r14Writer(c *RuleCtx) {
 		c.undecided("writer/idiom", c.fpos(fn), "persistFooter writes its fields with binary.Write(w, binary.BigEndian, x)", fmt.Sprintf("%d other Write calls, %d binary.Write calls: the footer writer uses an idiom this rule does not read", other, len(writes)))
 		return
 	}
+	// the sequence of written values; a write inside a loop must be the
+	// unrollable walk over a fixed local array
+	var items []footerItem
+	inLoop := map[*ssa.BasicBlock]bool{}
+	for _, l := range naturalLoops(fn) {
+		for b := range l.blocks {
+			inLoop[b] = true
+		}
+	}
+	for _, w := range writes {
+		if inLoop[w.Block()] {
+			un := unrollArrayWrite(fn, w)
+			if un == nil {
+				c.undecided("writer/linear", c.pos(w), "the footer writes form one sequence", "a write inside a loop that is not a walk over a fixed local array of the values")
+				return
+			}
+			items = append(items, un...)
+			continue
+		}
+		items = append(items, footerItem{w, w.Call.Args[2]})
+	}
 	// linear order check: each write dominates the next
+	// (an unrolled loop stands where its header stands)
+	posBlock := func(w *ssa.Call) *ssa.BasicBlock {
+		for _, l := range naturalLoops(fn) {
+			if l.blocks[w.Block()] {
+				return l.header
+			}
+		}
+		return w.Block()
+	}
 	for i := 0; i+1 < len(writes); i++ {
-		if !(writes[i].Block() == writes[i+1].Block() || writes[i].Block().Dominates(writes[i+1].Block())) {
+		a, b := posBlock(writes[i]), posBlock(writes[i+1])
+		if !(a == b || a.Dominates(b)) {
 			c.undecided("writer/linear", c.pos(writes[i+1]), "the footer writes form one sequence", "writes are not totally ordered by dominance")
 			return
 		}
 	}
 	var got []string
-	var crcWriter *ssa.Call // the CountHashWriter created in persistFooter
+	// the CountHashWriter created in persistFooter: by a constructor or as a literal
+	var crcWriter ssa.Value
 	for _, cs := range callSites(fn) {
-		if f := staticCallee(cs); f != nil && c.p.InZap(f) && f.Signature.Results().Len() == 1 && isNamed(f.Signature.Results().At(0).Type(), zapPkgPath, "CountHashWriter") {
-			crcWriter, _ = cs.(*ssa.Call)
+		if f := staticCallee(cs); f != nil && c.p.InZap(f) && f.Signature.Recv() == nil && f.Signature.Results().Len() == 1 && isNamed(f.Signature.Results().At(0).Type(), zapPkgPath, "CountHashWriter") {
+			if call, ok := cs.(*ssa.Call); ok {
+				crcWriter = call
+			}
 		}
 	}
-	okAll := len(writes) == len(v16WriterOrder)
+	if crcWriter == nil {
+		eachInstr(fn, func(_ *ssa.BasicBlock, in ssa.Instruction) {
+			if al, ok := in.(*ssa.Alloc); ok && isNamed(al.Type(), zapPkgPath, "CountHashWriter") {
+				crcWriter = al
+			}
+		})
+	}
+	// the accessor of the running CRC, if the writer is read through it
+	isCRCAccessor := func(f *ssa.Function) bool {
+		if f == nil || f.Signature.Recv() == nil || !isNamed(f.Signature.Recv().Type(), zapPkgPath, "CountHashWriter") || len(f.Blocks) != 1 {
+			return false
+		}
+		rets := returnsOf(f)
+		if len(rets) != 1 || len(rets[0].Results) != 1 {
+			return false
+		}
+		sn, fld, base, ok := loadedField(rets[0].Results[0])
+		return ok && sn == "CountHashWriter" && fld == "crc" && base == ssa.Value(f.Params[0])
+	}
+	okAll := len(items) == len(v16WriterOrder)
 	var details []string
-	for i, w := range writes {
-		data := w.Call.Args[2]
-		v := data
+	for i, it := range items {
+		w := it.call
+		v := it.data
 		if mi, ok := v.(*ssa.MakeInterface); ok {
 			v = mi.X
 		}
@@ -223,8 +382,22 @@ func r14Writer(c *RuleCtx) {
 				}
 			}
 		case *ssa.UnOp:
-			if sn, fld, base, ok := loadedField(x); ok && sn == "CountHashWriter" && fld == "crc" && crcWriter != nil && root(base) == ssa.Value(crcWriter) {
+			if sn, fld, base, ok := loadedField(x); ok && sn == "CountHashWriter" && fld == "crc" && crcWriter != nil && root(base) == crcWriter {
 				role = "crc"
+			}
+		case *ssa.Call:
+			if isCRCAccessor(x.Call.StaticCallee()) && crcWriter != nil && root(x.Call.Args[0]) == crcWriter {
+				// read after every earlier write: the call is in the block of
+				// the write or in one the previous writes dominate
+				role = "crc"
+				for _, pw := range writes {
+					if pw == w {
+						break
+					}
+					if !(posBlock(pw) == x.Block() || posBlock(pw).Dominates(x.Block())) || inLoop[x.Block()] {
+						role = "crc read too early"
+					}
+				}
 			}
 		}
 		// byte order
@@ -240,7 +413,7 @@ func r14Writer(c *RuleCtx) {
 		}
 		// destination: the local counting writer
 		dst := w.Call.Args[0]
-		dstOK := crcWriter != nil && root(dst) == ssa.Value(crcWriter)
+		dstOK := crcWriter != nil && root(dst) == crcWriter
 		got = append(got, fmt.Sprintf("%s:u%d", role, width*8))
 		if i < len(v16WriterOrder) {
 			want := v16WriterOrder[i]
@@ -256,16 +429,11 @@ func r14Writer(c *RuleCtx) {
 	}
 	c.check(okAll, "writer/sequence", c.fpos(fn), "persistFooter writes, big endian and through its CRC-counting writer: "+strings.Join(v16WriterOrder, ", ")+" (u64 x5, u32 x3)",
 		"footer written as ["+strings.Join(got, ", ")+"]; "+strings.Join(details, "; "))
-	// parameter order of persistFooter itself (callers pass by position)
-	var pn []string
-	for _, p := range fn.Params {
-		pn = append(pn, p.Name())
-	}
 	// the running CRC is seeded before the first write
 	seeded := false
 	eachInstr(fn, func(b *ssa.BasicBlock, in ssa.Instruction) {
 		if st, ok := in.(*ssa.Store); ok {
-			if sn, fld, base, ok := fieldOf(st.Addr); ok && sn == "CountHashWriter" && fld == "crc" && crcWriter != nil && root(base) == ssa.Value(crcWriter) {
+			if sn, fld, base, ok := fieldOf(st.Addr); ok && sn == "CountHashWriter" && fld == "crc" && crcWriter != nil && root(base) == crcWriter {
 				if p, ok := st.Val.(*ssa.Parameter); ok && widthOf(p.Type()) == 4 {
 					if len(writes) > 0 && (b == writes[0].Block() || b.Dominates(writes[0].Block())) {
 						seeded = true
@@ -282,6 +450,62 @@ type affine struct {
 	hasLen bool
 	k      int64
 	ok     bool
+}
+
+// beReadHelper: f is `func(data []byte, at int) uintN { return
+// binary.BigEndian.UintN(data[at : at+N/8]) }` (any parameter order, one block).
+func beReadHelper(f *ssa.Function) (sliceParam, offParam, width int, ok bool) {
+	if f == nil || len(f.Blocks) != 1 || f.Signature.Recv() != nil {
+		return
+	}
+	rets := returnsOf(f)
+	if len(rets) != 1 || len(rets[0].Results) != 1 {
+		return
+	}
+	call, isCall := rets[0].Results[0].(*ssa.Call)
+	if !isCall {
+		return
+	}
+	g := call.Call.StaticCallee()
+	if g == nil {
+		return
+	}
+	switch g.String() {
+	case "(encoding/binary.bigEndian).Uint16":
+		width = 2
+	case "(encoding/binary.bigEndian).Uint32":
+		width = 4
+	case "(encoding/binary.bigEndian).Uint64":
+		width = 8
+	default:
+		return
+	}
+	arg := call.Call.Args[len(call.Call.Args)-1]
+	if ct, isCT := arg.(*ssa.ChangeType); isCT {
+		arg = ct.X
+	}
+	sl, isSl := arg.(*ssa.Slice)
+	if !isSl || sl.Low == nil || sl.High == nil {
+		return
+	}
+	hi, isBO := sl.High.(*ssa.BinOp)
+	if !isBO || hi.Op != token.ADD || hi.X != sl.Low {
+		return
+	}
+	if k, isK := constInt64(hi.Y); !isK || int(k) != width {
+		return
+	}
+	sliceParam, offParam = -1, -1
+	for i, p := range f.Params {
+		if sl.X == ssa.Value(p) {
+			sliceParam = i
+		}
+		if sl.Low == ssa.Value(p) {
+			offParam = i
+		}
+	}
+	ok = sliceParam >= 0 && offParam >= 0
+	return
 }
 
 func r14Reader(c *RuleCtx) {
@@ -372,6 +596,31 @@ func r14Reader(c *RuleCtx) {
 					}
 					if int(hi.k-lo.k) != w {
 						dest += fmt.Sprintf("?slice-width-%d", hi.k-lo.k)
+					}
+					acc.reads = append(acc.reads, read{int(-lo.k), w, dest})
+				}
+				if sp, op, w, ok := beReadHelper(x.Call.StaticCallee()); ok && c.p.InZap(x.Call.StaticCallee()) {
+					// data[at:at+w] decoded by a one-line helper
+					sarg := x.Call.Args[sp]
+					if ct, ok := sarg.(*ssa.ChangeType); ok {
+						sarg = ct.X
+					}
+					if !isLoadOfField(sarg, "Segment", "mm") {
+						acc.reads = append(acc.reads, read{-1, w, "?unreadable-slice"})
+						continue
+					}
+					lo := eval(x.Call.Args[op], env)
+					if !lo.ok || !lo.hasLen {
+						acc.reads = append(acc.reads, read{-1, w, "?non-affine-bounds"})
+						continue
+					}
+					dest := "?"
+					for _, r := range *x.Referrers() {
+						if st, ok := r.(*ssa.Store); ok {
+							if _, fld, _, ok := fieldOf(st.Addr); ok {
+								dest = fld
+							}
+						}
 					}
 					acc.reads = append(acc.reads, read{int(-lo.k), w, dest})
 				}
@@ -903,7 +1152,18 @@ func describeChunkArg(p *Program, v ssa.Value, depth int) string {
 		}
 	case *ssa.Convert:
 		return describeChunkArg(p, x.X, depth+1)
+	case *ssa.Extract:
+		// result i of a helper of package zap: what the helper returns there
+		// on its successful returns
+		if call, ok := x.Tuple.(*ssa.Call); ok {
+			if d := describeHelperResult(p, call, x.Index, depth); d != "" {
+				return d
+			}
+		}
 	case *ssa.Call:
+		if d := describeHelperResult(p, x, 0, depth); d != "" && x.Call.Signature().Results().Len() == 1 {
+			return d
+		}
 		if b, ok := x.Call.Value.(*ssa.Builtin); ok && b.Name() == "len" {
 			if sn, fld, _, ok := loadedField(x.Call.Args[0]); ok && fld == "results" {
 				return "segment-doc-count (len " + sn + "." + fld + ")"
@@ -978,6 +1238,34 @@ func describeChunkArg(p *Program, v ssa.Value, depth int) string {
 		return "param " + x.Name() + " fed by {" + strings.Join(ks, "; ") + "}"
 	}
 	return "?"
+}
+
+// describeHelperResult: the provenance of result idx of a call to a helper
+// that the pinned tree did not have (code moved out of the caller).
+func describeHelperResult(p *Program, call *ssa.Call, idx, depth int) string {
+	h := call.Call.StaticCallee()
+	if !isNewHelper(p, h) || idx >= h.Signature.Results().Len() {
+		return ""
+	}
+	kinds := map[string]bool{}
+	for _, ret := range returnsOf(h) {
+		if _, ns := errorOfReturn(ret); ns == nonNil {
+			continue
+		}
+		kinds[describeChunkArg(p, returnedValue(ret, idx), depth+1)] = true
+	}
+	var ks []string
+	for k := range kinds {
+		ks = append(ks, k)
+	}
+	sort.Strings(ks)
+	if len(ks) == 1 {
+		return ks[0]
+	}
+	if len(ks) == 0 {
+		return ""
+	}
+	return "helper " + h.Name() + " returning {" + strings.Join(ks, "; ") + "}"
 }
 
 func describeChunkArgNoPhiLoop(p *Program, v ssa.Value, depth int, loop *ssa.Phi) string {
